@@ -279,20 +279,103 @@ def run(ctx):
 
     vectors = gen_vectors(ctx)
     tables = gen_tables(ctx)
-    # ---- MATCH
-    match_cases = []        # (v, vector, mt)
+    # ---- both sides
+    from pycel.lib.lookup import _match
+
+    def impl_call(name, args):
+        if name == '_match':
+            return run_impl(_match, *args)
+        if name == 'bisect':
+            a, v, lo, hi = args
+            return run_impl(lambda: bisect_right(a, ExcelCmp(v), lo=lo, hi=hi))
+        return run_impl(F[name], *args)
+    res_of = {}
+
+    def both(cs):
+        """run implementation and model on the calls, count, record divergences; implementation results"""
+        im_all = [impl_call(n, a) for n, a in cs]
+        ms = [dec_res(x) for x in ctx.model.batch([(n, [enc_val(v) for v in a]) for n, a in cs])] \
+            if ctx.model else [None] * len(cs)
+        for (n, a), im, m in zip(cs, im_all, ms):
+            case = dict(call=n, args=list(a))
+            ctx.count(hash((n, repr(a))), kind=n, sample=dict(case, impl=im))
+            if m is not None:
+                if m[0] == 'raise' and m[1] in ('Unmodelled', 'OutOfFuel'):
+                    ctx.histogram['unmodelled'] = ctx.histogram.get('unmodelled', 0) + 1
+                elif not same(m, im):
+                    ctx.divergence(case, im, m,
+                                   'Model/Lookup.v + Gen/lookup.v + Model/LookupCore.v = pycel.lib.lookup')
+        return im_all
+
+    def call(name, *args):
+        k = (name, repr(args))
+        if k not in res_of:
+            res_of[k] = impl_call(name, args)
+        return res_of[k]
+
+    # ---- oracle 1: MATCH against the linear-scan definition
+    def judge_match(v, a, mt, shape_args, got):
+        case = dict(call='match', args=list(shape_args))
+        if got[0] == 'raise':
+            cl = wild_clause(v, a)
+            ctx.violation(dict(case, clause=(cl + '-raises') if cl else 'raises'),
+                          f"MATCH raises {got[1]}", impl=got)
+            return
+        g = got[1]
+        if is_err(v):
+            if g != v:
+                ctx.violation(case, "error lookup value is not returned", impl=g, expected=v)
+            return
+        vv = 0 if v is None else v
+        if mt == 0:
+            want = expect_match0(vv, a)
+            if g != want:
+                cl = wild_clause(vv, a) or \
+                    ('blank-cell-as-zero' if g == expect_match0(vv, a, blank_is_zero=True) else 'match0')
+                ctx.violation(dict(case, clause=cl), "MATCH(v, a, 0) is not the first position equal to v",
+                              impl=g, expected=want)
+            return
+        asc, desc = sorted_dir(a)
+        if (mt == 1 and asc) or (mt == -1 and desc):
+            if not ok_match_sorted(vv, a, g, mt):
+                # the same input read with blank cells as the number 0: either the property is then
+                # satisfied, or the vector is then not sorted and the property says nothing
+                a0 = [0 if c is None else c for c in a]
+                z_asc, z_desc = sorted_dir(a0)
+                blank_cause = rank(vv) == 0 and any(c is None for c in a) and (
+                    not (z_asc if mt == 1 else z_desc) or ok_match_sorted(vv, a, g, mt, blank_is_zero=True))
+                cl = 'blank-cell-as-zero' if blank_cause else 'match-sorted'
+                ctx.violation(dict(case, clause=cl),
+                              "MATCH on sorted data does not return a position holding the "
+                              + ("largest value <= v" if mt == 1 else "smallest value >= v") + " of v's type",
+                              impl=g, expected='see definition')
+            ctx.histogram['oracle-sorted'] = ctx.histogram.get('oracle-sorted', 0) + 1
+    # ---- MATCH: the sweep over vectors x lookup values x match types, in chunks
+    chunk = []
+
+    def flush():
+        ims = both([(n, args) for (n, args, _) in chunk])
+        for (n, args, j), im in zip(chunk, ims):
+            if j is not None:
+                judge_match(j[0], j[1], j[2], args, im)
+        chunk.clear()
     for a, tag in vectors:
-        lvs = LOOKUPS if tag == 'exh' or ctx.tier == 'thorough' else \
-            ctx.rng.sample(LOOKUPS, 6) + [x for x in a[:3] if x is not None]
+        if tag == 'exh' and len(a) == 5:
+            lvs = POOL + [0]                   # thorough: every value of the pool as the lookup value
+        elif tag == 'exh' or ctx.tier == 'thorough':
+            lvs = LOOKUPS
+        else:
+            lvs = ctx.rng.sample(LOOKUPS, 6) + [x for x in a[:3] if x is not None]
         for v in lvs:
             for mt in MATCH_TYPES:
-                match_cases.append((v, a, mt, tag))
-    for v, a, mt, tag in match_cases:
-        if len(a) == 0:
-            add('_match', v, a, mt)
-            continue
-        shape = (a,) if (len(a) + (mt if isinstance(mt, int) else 0)) % 2 else col_vec(a)
-        add('match', v, shape, mt)
+                if len(a) == 0:
+                    chunk.append(('_match', (v, a, mt), None))
+                    continue
+                shape = (a,) if (len(a) + mt) % 2 else col_vec(a)
+                chunk.append(('match', (v, shape, mt), (v, a, mt)))
+        if len(chunk) >= 100000:
+            flush()
+    flush()
     for a, tag in vectors[:: max(1, len(vectors) // ctx.n(300, 3000))]:
         if not a:
             continue
@@ -359,16 +442,6 @@ def run(ctx):
         add('index', '#REF!', 1, 1)
         add('index', 5, 1, 1)
         add('index', (1, 2, 3), 1, 1)
-    # ---- both sides
-    from pycel.lib.lookup import _match
-
-    def impl_call(name, args):
-        if name == '_match':
-            return run_impl(_match, *args)
-        if name == 'bisect':
-            a, v, lo, hi = args
-            return run_impl(lambda: bisect_right(a, ExcelCmp(v), lo=lo, hi=hi))
-        return run_impl(F[name], *args)
     seen = set()
     uniq = []
     for c in calls:
@@ -377,68 +450,9 @@ def run(ctx):
             seen.add(key)
             uniq.append(c)
     calls = uniq
-    impl = [impl_call(n, a) for n, a in calls]
-    model = [dec_res(x) for x in ctx.model.batch([(n, [enc_val(v) for v in a]) for n, a in calls])] \
-        if ctx.model else [None] * len(calls)
-    res_of = {}
-    for (n, a), im, m in zip(calls, impl, model):
-        case = dict(call=n, args=list(a))
+    impl = both(calls)
+    for (n, a), im in zip(calls, impl):
         res_of[(n, repr(a))] = im
-        ctx.count((n, repr(a)), kind=n, sample=dict(case, impl=im))
-        if m is not None:
-            if m[0] == 'raise' and m[1] in ('Unmodelled', 'OutOfFuel'):
-                ctx.histogram['unmodelled'] = ctx.histogram.get('unmodelled', 0) + 1
-            elif not same(m, im):
-                ctx.divergence(case, im, m, 'Model/Lookup.v + Gen/lookup.v + Model/LookupCore.v = pycel.lib.lookup')
-
-    def call(name, *args):
-        k = (name, repr(args))
-        if k not in res_of:
-            res_of[k] = impl_call(name, args)
-        return res_of[k]
-
-    # ---- oracle 1: MATCH against the linear-scan definition
-    def judge_match(v, a, mt, shape_args, got):
-        case = dict(call='match', args=list(shape_args))
-        if got[0] == 'raise':
-            cl = wild_clause(v, a)
-            ctx.violation(dict(case, clause=(cl + '-raises') if cl else 'raises'),
-                          f"MATCH raises {got[1]}", impl=got)
-            return
-        g = got[1]
-        if is_err(v):
-            if g != v:
-                ctx.violation(case, "error lookup value is not returned", impl=g, expected=v)
-            return
-        vv = 0 if v is None else v
-        if mt == 0:
-            want = expect_match0(vv, a)
-            if g != want:
-                cl = wild_clause(vv, a) or \
-                    ('blank-cell-as-zero' if g == expect_match0(vv, a, blank_is_zero=True) else 'match0')
-                ctx.violation(dict(case, clause=cl), "MATCH(v, a, 0) is not the first position equal to v",
-                              impl=g, expected=want)
-            return
-        asc, desc = sorted_dir(a)
-        if (mt == 1 and asc) or (mt == -1 and desc):
-            if not ok_match_sorted(vv, a, g, mt):
-                # the same input read with blank cells as the number 0: either the property is then
-                # satisfied, or the vector is then not sorted and the property says nothing
-                a0 = [0 if c is None else c for c in a]
-                z_asc, z_desc = sorted_dir(a0)
-                blank_cause = rank(vv) == 0 and any(c is None for c in a) and (
-                    not (z_asc if mt == 1 else z_desc) or ok_match_sorted(vv, a, g, mt, blank_is_zero=True))
-                cl = 'blank-cell-as-zero' if blank_cause else 'match-sorted'
-                ctx.violation(dict(case, clause=cl),
-                              "MATCH on sorted data does not return a position holding the "
-                              + ("largest value <= v" if mt == 1 else "smallest value >= v") + " of v's type",
-                              impl=g, expected='see definition')
-            ctx.histogram['oracle-sorted'] = ctx.histogram.get('oracle-sorted', 0) + 1
-    for v, a, mt, tag in match_cases:
-        if len(a) == 0:
-            continue
-        shape = (a,) if (len(a) + mt) % 2 else col_vec(a)
-        judge_match(v, a, mt, (v, shape, mt), call('match', v, shape, mt))
     for p, a in wild_cases:
         judge_match(p, a, 0, (p, (a,), 0), call('match', p, (a,), 0))
     # ---- oracle 2: VLOOKUP/HLOOKUP = INDEX at the position MATCH finds; transpose; bounds
